@@ -535,6 +535,17 @@ let handle (req : sexp) : String.t =
                      "comment", (match cm with Some c -> jstr (os c) | None -> "null"); "roundtrip", jbool rt])
         | _ -> bad "parselines case" in
       jobj ["status", jstr "ok"; "results", jlist one (lst cases)]
+  | L [A "parseblock"; lines; expected] ->
+      (* Line.parse_block on the physical lines of the body of a headed expressions block (comment and blank lines skipped)
+         against the sequence of (name, expression) Lark reads in that block *)
+      let ls = List.map (fun l -> cs (atom l)) (lst lines) in
+      let exp = List.map (function L [A n; e] -> (n, expr_of e) | _ -> bad "parseblock expected") (lst expected) in
+      (match parse_block ls with
+       | None -> jobj ["status", jstr "ok"; "verdict", jstr "model-rejects"]
+       | Some got ->
+         let same = List.length got = List.length exp
+                    && List.for_all2 (fun ((x, e), _) (n, e2) -> os x = n && expr_eqb e e2) got exp in
+         jobj ["status", jstr "ok"; "verdict", jstr (if same then "agree" else "differ"); "assignments", string_of_int (List.length got)])
   | L [A "symrhs"; A tries; inp] ->
       (* sympytools.rhs_matrix / jacobi_matrix of the mirror, evaluated at an input point *)
       let o = the_ode () in
